@@ -1255,9 +1255,13 @@ class NinjaBackend(backends.Backend):
 
         write = True
         if os.path.exists(pickle_abs):
-            with open(pickle_abs, 'rb') as p:
-                old = pickle.load(p)
-            write = old != scaninfo
+            try:
+                with open(pickle_abs, 'rb') as p:
+                    old = pickle.load(p)
+                write = old != scaninfo
+            except (pickle.UnpicklingError, EOFError):
+                # Left behind by an interrupted run: write it again.
+                pass
 
         if write:
             with open(pickle_abs, 'wb') as p:
